@@ -76,13 +76,17 @@ Detectable(d, wi) ==
 (* Mode "fields" (C03) *)
 FieldValues == { U(5), S(<<120, 121>>), <<"nil">>, <<"arr", <<U(1), U(2)>>>>,
                  <<"map", <<<<S(<<110>>), U(9)>>, <<S(<<109>>), S(<<113>>)>>>>>>,
-                 S(Run(115, 20)) }           \* a 20-byte string: larger than the 8-byte model window
+                 S(Run(115, 20)),            \* a 20-byte string: larger than the 8-byte model window
+                 <<"map", <<<<S(Kb), U(8)>>, <<S(Kc), S(<<114>>)>>>>>> }   \* a nested object that reuses the member names of the outer one
+Kaa == <<97, 97>>                                \* a key of which another key ("a") is a proper prefix
 
 Objs ==
   { <<"map", <<>>>> }
   \cup { <<"map", <<<<S(Ka), x>>>>>> : x \in FieldValues }
   \cup { <<"map", <<<<S(Ka), x>>, <<S(Kb), y>>>>>> : x \in FieldValues, y \in {U(5), S(<<120, 121>>), <<"arr", <<U(1), U(2)>>>>} }
   \cup { <<"map", <<<<S(Kb), U(6)>>, <<S(Ka), x>>, <<S(Kc), y>>>>>> : x \in FieldValues, y \in {<<"nil">>, S(Run(115, 20))} }
+  \cup { <<"map", <<<<S(Ka), U(5)>>, <<S(Kaa), x>>>>>> : x \in {U(6), S(<<120, 121>>)} }
+  \cup { <<"map", <<<<S(Kaa), U(6)>>, <<S(Kb), U(4)>>, <<S(Ka), U(5)>>>>>> }
   \cup (IF Arch = "msgpack" THEN { <<"map", <<<<U(1), U(10)>>, <<U(-2), S(<<120>>)>>, <<S(Ka), U(7)>>>>>>,
                                    \* keys whose bit patterns coincide across signedness: 2^64-1 vs -1, 2^32-1 vs (int32)-1
                                    <<"map", <<<<<<"int", FALSE, <<255, 255, 255, 255, 255, 255, 255, 255>>>>, U(20)>>,
@@ -91,6 +95,9 @@ Objs ==
 ReqOps ==
   { [op |-> "req", ks |-> k, t |-> t] : k \in {Ka, Kb, Kc, Kz}, t \in {"i32", "str"} }
   \cup { [op |-> "visit"] }
+  \* the same requests through the `const char*` (string literal) overloads of the key API, and for the prefix-related key
+  \cup (IF Arch \in {"json", "xml"} THEN { [op |-> "req", ks |-> k, t |-> "i32", kc |-> TRUE] : k \in {Ka, Kaa, Kz} } ELSE {})
+  \cup { [op |-> "req", ks |-> Kaa, t |-> "i32"] }
   \cup { [op |-> "obj", ks |-> Ka, ops |-> o] : o \in { <<>>, <<[op |-> "req", ks |-> <<109>>, t |-> "str"]>>,
                                                        <<[op |-> "req", ks |-> <<109>>, t |-> "str"], [op |-> "req", ks |-> <<110>>, t |-> "i32"]>> } }
   \cup { [op |-> "arr", ks |-> Ka, ops |-> o] : o \in { <<>>, <<[op |-> "elem", t |-> "i32"]>>,
